@@ -138,7 +138,18 @@ def m1(run: Run, cy: CyProgram):
                     f"{sorted(tuple(sorted(p)) for p in got)})")
         # normaliser: falling factorial of the degree with r factors
         d = dname or "degree_i"
-        facs = sorted(pp(x).replace(" ", "") for x in product_factors(strip(norm.a[1]).a[2]))
+        den = strip(strip(norm.a[1]).a[2])
+        if den.k == "name":
+            # the normaliser hoisted into a local assigned once
+            dd = [st_.a[1] for st_ in walk(f.body) if isinstance(st_, X)
+                  and st_.k == "assign" and len(st_.a[0]) == 1
+                  and st_.a[0][0].k == "name" and st_.a[0][0].a[0] == den.a[0]]
+            init = f.locals.get(den.a[0])
+            if init is not None and init[1] is not None:
+                dd.append(init[1])
+            if len(dd) == 1:
+                den = dd[0]
+        facs = sorted(pp(x).replace(" ", "") for x in product_factors(den))
         wantf = sorted([d] + [f"({d}-{t})" for t in range(1, r)])
         wantm = math.factorial(r) if mode == "subsets" else 1
         okn = facs == wantf and mult == wantm
